@@ -195,3 +195,28 @@ def ascii_fragment(rng) -> bytes:
         return base.encode(), "ascii"
     n = rng.choice((1, 2, 5, 12, 40, 200))
     return "".join(rng.choice(ASCII_FRAG) for _ in range(n)).encode(), "ascii"
+
+
+def canonical_inputs() -> list[tuple[bytes, str]]:
+    """A fixed corpus that every C15 run probes (so that detection of these classes does not depend on the random draw):
+    long runs of one character class followed by another character, in value / unit / address position, and friends."""
+    out = []
+    for cls in ("1", "0", "9", "0123456789", "0.", "1.", ".", "(", ")", "*", "-", ":", "a", " ", "e", "1e", "-1"):
+        for n in (30, 60, 400):
+            run = (cls * n)[:n]
+            for term in ("x", "", "."):
+                for unit in ("kWh", "V"):
+                    out.append((f"1-0:1.8.0({run}{term}*{unit})\r\n".encode(), "canonical"))
+            out.append((f"1-0:1.8.0(1*{run}x)\r\n".encode(), "canonical"))
+            out.append((f"{run}x(1*kWh)\r\n".encode(), "canonical"))
+            out.append((f"{run}".encode(), "canonical"))
+    for depth in (10, 20, 30, 40, 60):
+        body = b"\x0f\x00"
+        for _ in range(depth):
+            body = b"\x02\x02" + body + b"\x0f\x00"
+        out.append((b"\x02\x01" + body, "canonical"))
+        body = ce.u32(7)
+        for _ in range(depth):
+            body = b"\x01\x01" + body
+        out.append((b"\x01\x01" + body, "canonical"))
+    return out
